@@ -3,7 +3,7 @@ import GqlModel.Validate.Engine
 namespace Gql.Validate.Rules
 open Gql Gql.Validate
 
-def knownFragmentNamesStep (_ : Schema) (_ : QueryDoc) (e : Event) : List RErr :=
+def knownFragmentNamesStep (_ : SV) (_ : QueryDoc) (e : Event) : List RErr :=
   match e.p with
   | .fragmentSpread f none _ => [errAt (str "Unknown fragment " ++ dq f.name ++ str ".") f.pos]
   | _ => []
